@@ -1205,6 +1205,63 @@ def f(x):
 ''', ['f(1)', 'f("s")'])
 
 
+case('private read-only property read on self (also from a subclass and from another property)', '''
+class R(object):
+    def __init__(self, cap):
+        self._data, self._cap = [], cap
+    @property
+    def _n(self):
+        return len(self._data)
+    @property
+    def room(self):
+        return self._cap - self._n
+    def add(self, v):
+        if self._n < self._cap:
+            self._data.append(v)
+            return True
+        return False
+    def __repr__(self):
+        return '<R %r/%r>' % (self._n, self._cap)
+class S(R):
+    def add2(self, v):
+        return (self._n, R.add(self, v), self._n)
+def f(k):
+    r = S(2)
+    out = [r.add(i) for i in range(k)]
+    return out, repr(r), r.room, r.add2(9)
+''', ['f(0)', 'f(1)', 'f(3)'])
+
+case('property with a setter / stored attribute / class-level read is left alone', '''
+class R(object):
+    def __init__(self):
+        self._v = 1
+    @property
+    def _p(self):
+        return self._v + 1
+    @_p.setter
+    def _p(self, v):
+        self._v = v
+    def get(self):
+        return self._p
+class Q(object):
+    @property
+    def _q(self):
+        return 5
+    def get(self):
+        return self._q, type(Q._q).__name__
+class T(object):
+    @property
+    def _t(self):
+        return 7
+    def get(self, other):
+        return self._t + other._t
+def f(x):
+    r = R()
+    r._p = x
+    return r.get(), Q().get(), T().get(T())
+''', ['f(1)', 'f(4)'], expect_inlined=False)
+
+
 def run_case(name, src, calls, expect_inlined):
     tree = ast.parse(src)
     normalize._ANCHORS = set()      # nothing is an anchor in these toy modules
